@@ -26,6 +26,7 @@ func init() {
 
 func runC19(c *Ctx, r *Run) {
 	r.Rule("ENC-0", "item framing in hash.WriteAny: variable-width writes are length-prefixed by a fixed-width encoding of len() of the same value on every path; the type switch rejects unknown types")
+	r.Rule("FS-7", "every field of a self-writing struct type is read by its WriteTo (or the codec it delegates to)")
 	r.Rule("ENC-2", "every transcript writer is total on its type: no value is refused")
 	r.Rule("ENC-1", "each typed writer is injective as a whole: at most one undelimited variable-width segment, none inside loops; loops write fixed-width or length-prefixed items")
 	r.Rule("DOM-1", "domain strings are non-empty constants, pairwise distinct across writer types; ad-hoc BytesWithDomain literals use constant non-empty domains")
@@ -40,12 +41,14 @@ func runC19(c *Ctx, r *Run) {
 	checkWriteAnyFraming(c, r)
 	impls := writerImplementers(c)
 	checkWritersTotal(c, r, "ENC-2", impls)
+	checkWritersComplete(c, r, "FS-7", impls)
 	checkWriterShapes(c, r, impls)
 	checkDomains(c, r, impls)
 	checkHashArgTypes(c, r)
 	checkCommit(c, r)
 
 	r.Require("ENC-2", 15)
+	r.Require("FS-7", 20)
 	r.Require("ENC-0", 3)
 	r.Require("ENC-1", 17)
 	r.Require("DOM-1", 20)
@@ -1244,5 +1247,64 @@ func checkWritersTotal(c *Ctx, r *Run, rule string, impls []writerImpl) {
 		}
 		r.Check(rule, name+"|total", c.Pos(fn.Pos()), len(bad) == 0, "the writer refuses no value of its type (errors only from nil parts or the underlying writer)",
 			"the writer itself refuses some values of its type (fresh error returned at "+strings.Join(bad, "; ")+"): callers that hash such a value (several discard the error by design, e.g. HashForID) silently leave it and all later items out of the transcript, so the per-party / per-session binding is lost for exactly those values")
+	}
+}
+
+// writerFieldExempt: fields of a writer's type that are deliberately not part of its transcript encoding.
+var writerFieldExempt = map[string]string{
+	"pkg/paillier.PublicKey.nSquared":    "derived from n",
+	"pkg/paillier.PublicKey.nNat":        "cached copy of n",
+	"pkg/paillier.PublicKey.nPlusOne":    "derived from n",
+	"pkg/hash.BytesWithDomain.TheDomain": "written by the framing through Domain(), not by WriteTo",
+	// the transcript image of a CMP configuration is its public part (threshold, parties, rid, public table):
+	"protocols/cmp/config.Config.ID":       "party-local: every party must derive the same image of the shared configuration",
+	"protocols/cmp/config.Config.ECDSA":    "secret share: never hashed",
+	"protocols/cmp/config.Config.ElGamal":  "secret key: never hashed",
+	"protocols/cmp/config.Config.Paillier": "secret key: never hashed (the public key is in the table)",
+	"protocols/cmp/config.Config.ChainKey": "not part of the reviewed image (changing this changes every session tag)",
+}
+
+// checkWritersComplete: FS-7. Every field of a struct type that writes itself into the transcript is read by its
+// WriteTo (directly, or through the codec / helper it delegates to): a field left out makes distinct values hash alike.
+func checkWritersComplete(c *Ctx, r *Run, rule string, impls []writerImpl) {
+	for _, im := range impls {
+		st, ok := im.named.Underlying().(*types.Struct)
+		if !ok {
+			continue
+		}
+		fn := c.Prog.FuncValue(im.writeTo)
+		if fn == nil || len(fn.Blocks) == 0 {
+			continue
+		}
+		name := c.ObjName(im.named.Obj())
+		read := map[string]bool{}
+		withCallees(c, fn, 3, func(f *ssa.Function) {
+			allInstrs(f, func(in ssa.Instruction) {
+				switch x := in.(type) {
+				case *ssa.FieldAddr:
+					if namedOf(derefType(x.X.Type())) == im.named {
+						read[fieldName(x.X.Type(), x.Field)] = true
+					}
+				case *ssa.Field:
+					if namedOf(x.X.Type()) == im.named {
+						read[fieldName(x.X.Type(), x.Field)] = true
+					}
+				}
+			})
+		})
+		for i := 0; i < st.NumFields(); i++ {
+			f := st.Field(i)
+			key := name + "." + f.Name()
+			if isGroupContext(f) {
+				r.Hold(rule, key+"|exempt", c.Pos(f.Pos()), "group context, fixed per session")
+				continue
+			}
+			if why, ex := writerFieldExempt[key]; ex {
+				r.Hold(rule, key+"|exempt", c.Pos(f.Pos()), why)
+				continue
+			}
+			r.Check(rule, key, c.Pos(fn.Pos()), read[f.Name()], "field "+f.Name()+" is part of what "+im.named.Obj().Name()+".WriteTo hashes",
+				"field "+f.Name()+" of "+name+" is never read by its WriteTo (nor by the codec it delegates to): two values differing only in "+f.Name()+" produce the same transcript bytes, so hashes and commitments over this type are not injective")
+		}
 	}
 }
